@@ -52,7 +52,7 @@ class C15(Prop):
     trusted = [
         "np.histogram(x, bins=256) (uniform bins between min and max, last bin closed) and np.argmax (first maximum) "
         "are external; the histogram NumPy returned is the input of the criterion check, and is itself compared with "
-        "the exact binning model when no value lies within 1e-9 bin widths of an edge",
+        "the exact binning model when no value lies within 1e-9 bin widths (plus 8 ulps of the larger end point) of an edge",
         "multiplying float data by a power of two is exact (no overflow/underflow in the generated range), which is "
         "where `scale_invariant` (exact arithmetic, every c > 0) transfers to the float computation bit for bit",
     ]
@@ -261,7 +261,9 @@ class C15(Prop):
             drep = ctx.driver.call("c15.data", data=[orat(float(v)) for v in flat], bins=BINS,
                                    np_edges=[core.rat(float(v)) for v in edges])
             margin = float(unrat(drep["min_margin"]))
-            if margin < 1e-9 or not drep["on_edge_ok"]:
+            # NumPy bins against its float edges, which sit within a few ulps of the exact ones
+            width = (hi - lo) / BINS
+            if margin < 1e-9 + 8 * EPS * max(abs(lo), abs(hi)) / width or not drep["on_edge_ok"]:
                 feats.add("value-within-1e-9-of-edge(binning not compared)")
             else:
                 feats.add("binning-compared")
